@@ -10,6 +10,7 @@ import (
 	"compress/gzip"
 	"context"
 	"crypto/sha256"
+	"errors"
 	"fmt"
 	"io"
 	"math/rand"
@@ -23,6 +24,7 @@ import (
 	"github.com/opencontainers/go-digest"
 	ocispec "github.com/opencontainers/image-spec/specs-go/v1"
 	oras "oras.land/oras-go/v2"
+	"oras.land/oras-go/v2/content"
 	"oras.land/oras-go/v2/content/file"
 	"oras.land/oras-go/v2/content/memory"
 	"oras.land/oras-go/v2/content/oci"
@@ -377,6 +379,46 @@ func runC12(seed int64, tier string, sc *Script) map[string]any {
 			sc.Op(d, "tr duplicates forcecas=%v", forceCAS)
 			evals++
 		}
+		// the same bytes under two names where the push under the second name broke off the
+		// first time: the manifest that lists both still materialises both
+		{
+			wd7 := filepath.Join(base, "wd7")
+			os.MkdirAll(wd7, 0o755)
+			fs7, _ := file.New(wd7)
+			da := content.NewDescriptorFromBytes("application/vnd.verif.dup", dup)
+			da.Annotations = map[string]string{ocispec.AnnotationTitle: "a.txt"}
+			db := content.NewDescriptorFromBytes("application/vnd.verif.dup", dup)
+			db.Annotations = map[string]string{ocispec.AnnotationTitle: "b.txt"}
+			v := "both"
+			if err := fs7.Push(ctx, da, bytes.NewReader(dup)); err != nil {
+				v = "first-push-failed"
+			}
+			if err := fs7.Push(ctx, db, io.MultiReader(bytes.NewReader(dup[:len(dup)/2]), errReader{})); err == nil {
+				v = "broken-push-accepted"
+			}
+			mf, err := oras.PackManifest(ctx, fs7, oras.PackManifestVersion1_1, "application/vnd.verif.artifact",
+				oras.PackManifestOptions{Layers: []ocispec.Descriptor{da, db}})
+			if err != nil && v == "both" {
+				v = "manifest-push-failed:" + strings.ReplaceAll(err.Error(), " ", "_")
+			}
+			_ = mf
+			if v == "both" {
+				for _, nm := range []string{"a.txt", "b.txt"} {
+					if b, err := os.ReadFile(filepath.Join(wd7, nm)); err != nil || !bytes.Equal(b, dup) {
+						v = nm + "-not-materialised"
+					}
+				}
+				plain := content.NewDescriptorFromBytes("application/vnd.verif.dup", dup)
+				if rc, err := fs7.Fetch(ctx, plain); err != nil {
+					v = "content-not-fetchable-by-digest"
+				} else {
+					rc.Close()
+				}
+			}
+			sc.Op(v, "tr duplicates-after-broken-push")
+			evals++
+			fs7.Close()
+		}
 		// a wrong uncompressed-digest annotation must make unpacking fail
 		fs3, _ := file.New(filepath.Join(base, "wd3"))
 		bad := dDir
@@ -467,3 +509,8 @@ func runC12(seed int64, tier string, sc *Script) map[string]any {
 	sc.Extra["evaluations"] = evals
 	return nil
 }
+
+// errReader fails on the first read.
+type errReader struct{}
+
+func (errReader) Read([]byte) (int, error) { return 0, errors.New("broken off") }
